@@ -167,9 +167,9 @@ func Roundtrip(args []string) {
 	for hid, cfg := range tr.ReadLines[Config](*in) {
 		dir := filepath.Join(root, fmt.Sprintf("d%d", hid))
 		src := cfg.BuildRichDB(*big)
-		w.Emit(map[string]any{"e": "src", "hid": hid, "cfg": cfg, "graphs": cfg.srcGraphs(), "bigints": *big})
+		w.Emit(map[string]any{"e": "src", "hid": hid, "cfg": cfg, "graphs": cfg.srcGraphs(), "bigints": *big, "ends": edgeEnds(cfg, src)})
 		_, derr := retriever.Dump(context.Background(), src, "fake", cfg.targets(), cfg.dumpOptions(dir, 0))
-		ev := map[string]any{"e": "dumped", "hid": hid, "ok": derr == nil, "err": fmt.Sprint(derr), "dir": Project(dir)}
+		ev := map[string]any{"e": "dumped", "hid": hid, "ok": derr == nil, "err": fmt.Sprint(derr), "dir": Project(dir), "metrics": manifestMetrics(dir)}
 		w.Emit(ev)
 		if derr != nil {
 			continue
@@ -215,9 +215,135 @@ func Roundtrip(args []string) {
 			g0.Rels = g0.Rels[1:]
 			verify("remove-edge", dst)
 			g0.Rels = saved
+			// move one endpoint of a relationship to another node, if that changes the out- (in-) degree distribution
+			for _, end := range []string{"start", "end"} {
+				if ri, ni, ok := rewire(g0, end); ok {
+					r := g0.Rels[ri]
+					old := r.StartID
+					if end == "end" {
+						old = r.EndID
+						r.EndID = g0.Nodes[ni].ID
+					} else {
+						r.StartID = g0.Nodes[ni].ID
+					}
+					verify("rewire-"+end, dst)
+					if end == "end" {
+						r.EndID = old
+					} else {
+						r.StartID = old
+					}
+				}
+			}
 		}
 		verify("none", dst)
 	}
 	w.Close()
 	fmt.Printf("{\"events\":%d}\n", w.N)
+}
+
+// edgeEnds: per graph, the endpoints of every relationship as marker values <<start v, end v>>, in id order.
+func edgeEnds(cfg Config, db *fakedb.DB) [][][2]int {
+	out := [][][2]int{}
+	for _, g := range cfg.Graphs {
+		vOf := map[graph.ID]int{}
+		for _, n := range db.G(g.Name).Nodes {
+			vOf[n.ID] = num(n.Properties.MapOrEmpty()["v"])
+		}
+		ends := [][2]int{}
+		for _, r := range db.G(g.Name).Rels {
+			ends = append(ends, [2]int{vOf[r.StartID], vOf[r.EndID]})
+		}
+		out = append(out, ends)
+	}
+	return out
+}
+
+type metricsProj struct {
+	Name  string   `json:"name"`
+	Nodes int      `json:"nodes"`
+	Edges int      `json:"edges"`
+	In    [][2]int `json:"in"` // <<degree, number of nodes>>
+	Out   [][2]int `json:"out"`
+	Total [][2]int `json:"total"`
+}
+
+func histPairs(h map[string]int64) [][2]int {
+	out := [][2]int{}
+	for k, v := range h {
+		d, err := strconv.Atoi(k)
+		if err != nil {
+			d = -1
+		}
+		out = append(out, [2]int{d, int(v)})
+	}
+	sort.Slice(out, func(i, j int) bool { return out[i][0] < out[j][0] })
+	return out
+}
+
+func manifestMetrics(dir string) []metricsProj {
+	out := []metricsProj{}
+	raw, err := os.ReadFile(filepath.Join(dir, "manifest.json"))
+	if err != nil {
+		return out
+	}
+	var m retriever.Manifest
+	if json.Unmarshal(raw, &m) != nil || m.Metrics == nil {
+		return out
+	}
+	for _, g := range m.Metrics.Graphs {
+		out = append(out, metricsProj{g.Name, int(g.NodeCount), int(g.EdgeCount), histPairs(g.InDegreeHistogram), histPairs(g.OutDegreeHistogram), histPairs(g.TotalDegreeHistogram)})
+	}
+	return out
+}
+
+func degreeMultiset(g *fakedb.Graph, out bool) string {
+	deg := map[graph.ID]int{}
+	for _, n := range g.Nodes {
+		deg[n.ID] = 0
+	}
+	for _, r := range g.Rels {
+		if out {
+			deg[r.StartID]++
+		} else {
+			deg[r.EndID]++
+		}
+	}
+	var ds []int
+	for _, d := range deg {
+		ds = append(ds, d)
+	}
+	sort.Ints(ds)
+	return fmt.Sprint(ds)
+}
+
+// rewire looks for a relationship and a node with the same kinds as its current start (end) such that moving the
+// endpoint there changes the out- (in-) degree distribution: an edit the manifest's metrics can see.
+func rewire(g *fakedb.Graph, end string) (int, int, bool) {
+	before := degreeMultiset(g, end == "start")
+	for ri, r := range g.Rels {
+		cur := r.StartID
+		if end == "end" {
+			cur = r.EndID
+		}
+		for ni, n := range g.Nodes {
+			if n.ID == cur {
+				continue
+			}
+			if end == "start" {
+				r.StartID = n.ID
+			} else {
+				r.EndID = n.ID
+			}
+			after := degreeMultiset(g, end == "start")
+			if end == "start" {
+				r.StartID = cur
+			} else {
+				r.EndID = cur
+			}
+			if after != before {
+				return ri, ni, true
+			}
+		}
+	}
+	return 0, 0, false
 }
